@@ -22,12 +22,13 @@ type Env struct {
 	at       *ssa.BasicBlock // loop head for local-name resolution
 	assuming bool            // valid(...) registers regions when true
 	guard    *Term           // condition under which the current sub-expression is asserted
+	nm       *State          // state that receives naming definitions (the goal's own path)
 	pkg      *types.Package
 	qn       int
 }
 
 func (r *FnRun) env(st, old *State) *Env {
-	e := &Env{r: r, st: st, old: old, vars: map[string]Val{}, vtypes: map[string]types.Type{}}
+	e := &Env{r: r, st: st, old: old, vars: map[string]Val{}, vtypes: map[string]types.Type{}, nm: st}
 	for k, v := range r.params {
 		e.vars[k] = v
 		e.vtypes[k] = r.ptypes[k]
@@ -244,6 +245,14 @@ func (e *Env) ident(name string) (Val, types.Type) {
 }
 
 func (e *Env) binary(n *EBinary) (Val, types.Type) {
+	v, t := e.binary0(n)
+	if tt, ok := v.(Term); ok && e.nm != nil && len(tt.S) > 60 && isNum(tt.Sort) && !strings.Contains(tt.S, "q!") {
+		return e.nm.name("cx", tt), t
+	}
+	return v, t
+}
+
+func (e *Env) binary0(n *EBinary) (Val, types.Type) {
 	switch n.Op {
 	case "&&":
 		return And(e.evalBool(n.X), e.evalBool(n.Y)), nil
@@ -687,6 +696,66 @@ func (e *Env) call(n *ECall) (Val, types.Type) {
 		e.r.E.Specs.Used[name] = true
 		return Term{app(sf.SMTName, args...), sf.Result}, nil
 	}
+	if gf, ok := e.r.E.GhostFns[name]; ok {
+		if len(gf.Params) != len(n.Args) {
+			e.fail("ghost function %s expects %d arguments", name, len(gf.Params))
+		}
+		wordSort := func(ab string) Sort {
+			if ab == "word" {
+				return BV(64, false)
+			}
+			s, err := parseSortAbbrev(ab)
+			if err != nil {
+				e.fail("ghost function %s: %v", name, err)
+			}
+			return s
+		}
+		var args []Term
+		var ps []string
+		for i := range n.Args {
+			t := e.evalTerm(n.Args[i])
+			ws := wordSort(gf.Params[i])
+			if ws.SMT() != t.Sort.SMT() {
+				e.fail("ghost function %s: argument %d has sort %s, expected %s", name, i, t.Sort.SMT(), ws.SMT())
+			}
+			args = append(args, t)
+			ps = append(ps, ws.SMT())
+		}
+		rs := wordSort(gf.Result)
+		root := e.r
+		for root.parent != nil {
+			root = root.parent
+		}
+		if root.ghostDecls == nil {
+			root.ghostDecls = map[string]string{}
+		}
+		root.ghostDecls[name] = fmt.Sprintf("(declare-fun gf_%s (%s) %s)\n", name, strings.Join(ps, " "), rs.SMT())
+		return Term{app("gf_"+name, args...), rs}, nil
+	}
+	switch name {
+	case "cs_old", "cs_new":
+		snap := e.st.csAcq
+		if name == "cs_new" {
+			snap = e.st.csRel
+		}
+		if snap == nil {
+			// no critical section on this path: the value is unspecified
+			v, t := e.evalT(n.Args[0])
+			return e.unspecified(v), t
+		}
+		sub := e.sub(snap)
+		sub.at = nil
+		return sub.evalT(n.Args[0])
+	case "ghost":
+		id, ok := n.Args[0].(*EIdent)
+		if !ok {
+			e.fail("ghost(name)")
+		}
+		if v, ok := e.st.ghost["ghost:"+id.Name]; ok {
+			return v, nil
+		}
+		return BVInt(0, 32, false), nil
+	}
 	if m, ok := memAlias[name]; ok && len(n.Args) == 0 {
 		return e.st.memArr(m), nil
 	}
@@ -790,4 +859,23 @@ func (sl *SpecLib) Load(path string, text string) error {
 		}
 	}
 	return nil
+}
+
+// unspecified returns fresh unconstrained values of the same shape.
+func (e *Env) unspecified(v Val) Val {
+	switch x := v.(type) {
+	case Term:
+		tgt := e.st
+		if e.nm != nil {
+			tgt = e.nm
+		}
+		return Term{tgt.declare(e.r.freshName("unspec"), x.Sort).S, x.Sort}
+	case *StructVal:
+		out := &StructVal{T: x.T, N: x.N}
+		for _, f := range x.F {
+			out.F = append(out.F, e.unspecified(f))
+		}
+		return out
+	}
+	return v
 }
